@@ -67,7 +67,14 @@ class BoundMethod:
 
 class LoopSpec:
     def __init__(self, counter=None, inv=(), variant=None, havoc=None, unroll=None, exit_assume=(), modifies=None,
-                 ghost_init=(), ghost_pre=(), ghost_post=(), types=None):
+                 ghost_init=(), ghost_pre=(), ghost_post=(), types=None, iter_name=None, uses=None):
+        # inv entries: 'text' or ('name', 'text').  uses: invariant name -> names of the invariants that may be used as
+        # hypotheses (at the loop head and from the sequential cut) when its preservation is proved; the others are dropped
+        # from that obligation (dropping hypotheses is sound; it keeps the solver's search small and stable)
+        self.uses = uses or {}
+        self.inv_names = [e[0] if isinstance(e, tuple) else str(i) for i, e in enumerate(inv)]
+        inv = [e[1] if isinstance(e, tuple) else e for e in inv]
+        self.iter_name = iter_name           # ghost name under which the iterated sequence is visible to the invariants
         self.ghost_init = list(ghost_init)   # ghost assignments executed once before the loop
         self.ghost_pre = list(ghost_pre)     # ... at the start of every iteration
         self.ghost_post = list(ghost_post)   # ... at the end of every iteration (before the invariant is re-checked)
@@ -86,7 +93,8 @@ class Contract:
     def __init__(self, params=None, requires=(), ensures=(), raises=None, loops=None, theory=None,
                  inline=(), opaque=(), ghosts=None, public_ensures=(), modifies=(), result=None,
                  fields=None, pure=True, frame=(), no_raise=False, mode='unbounded', defaults=None,
-                 ensures_exc=None, result_kind=None, notes='', ladder=None, lemmas=None):
+                 ensures_exc=None, result_kind=None, notes='', ladder=None, lemmas=None, ghost_at=None):
+        self.ghost_at = ghost_at or {}      # source-text prefix of a statement -> ghost statements executed right after it
         self.ladder = ladder or []
         self.lemmas = lemmas or []          # inductive lemmas proved at the return point (see Exec.prove_lemmas)
         self.params = params or {}
@@ -124,6 +132,9 @@ class Exec:
         self.name = name or fn_info.qualname
         self.vcs = []
         self.axioms = []
+        self.vacuous = []          # vacuity guard: reasons why the proof would be empty
+        self.ghost_at_hits = set()
+        self.feasible_paths = 0
         self.spec_funcs = {}
         self.havocked = []
         self.assumed = []          # textual list of assumptions used (opaque calls, models)
@@ -161,7 +172,7 @@ class Exec:
     # ---------------------------------------------------------------------------------------
     # obligations
 
-    def emit(self, st, kind, goal, node=None, note='', extra_hyps=()):
+    def emit(self, st, kind, goal, node=None, note='', extra_hyps=(), drop_hyps=None):
         if self.spec_mode:
             return
         line = getattr(node, 'lineno', 0) if node is not None else 0
@@ -174,7 +185,8 @@ class Exec:
         n = sum(1 for v in self.vcs if v.name.split('~')[0] == name)
         if n:
             name = '%s~%d' % (name, n)
-        vc = VC(name, kind, list(st.pc) + list(extra_hyps), g, line, self.name, note)
+        pc = list(st.pc) if not drop_hyps else [h for h in st.pc if h.get_id() not in drop_hyps]
+        vc = VC(name, kind, pc + list(extra_hyps), g, line, self.name, note)
         if z3.is_true(g):
             vc.result = 'unsat'
             vc.solver = 'simplifier'
@@ -219,6 +231,8 @@ class Exec:
             self.axioms.extend(axioms)
         for r in self.contract.requires:
             st.assume(self.eval_spec(r, st, role='hyp'))
+        if not self.feasible(st):
+            self.vacuous.append('the preconditions (with the theory) are contradictory')
         self.entry = st.copy()
         if self.contract.frame:
             stored = set()
@@ -246,10 +260,17 @@ class Exec:
         outs = self.exec_block(fnode.body, st)
         for s, oc in outs:
             self.finish_path(s, oc, fnode)
+        if self.feasible_paths == 0:
+            self.vacuous.append('no path through the function is feasible under the contract')
+        for pat in self.contract.ghost_at:
+            if pat not in self.ghost_at_hits:
+                raise Unsupported('ghost anchor %r matches no statement of the function (the code moved: contract needs re-anchoring)' % pat)
         return self.vcs
 
     def finish_path(self, s, oc, fnode):
         self.path_count += 1
+        if self.feasible(s):
+            self.feasible_paths += 1
         if oc is None or oc[0] == Outcome.NORMAL:
             oc = (Outcome.RETURN, None, fnode)
         if oc[0] == Outcome.RETURN:
@@ -351,6 +372,8 @@ class Exec:
             return v
         if spec == 'real':
             return z3.Real(n)
+        if spec == 'xreal':
+            return XReal.fresh(n)
         if spec == 'bool':
             return z3.Bool(n)
         if spec == 'sym':
@@ -467,7 +490,16 @@ class Exec:
         m = getattr(self, 'stmt_' + type(node).__name__, None)
         if m is None:
             raise Unsupported('statement %s at line %d' % (type(node).__name__, node.lineno))
-        return m(node, st)
+        outs = m(node, st)
+        if self.contract.ghost_at and not self.spec_mode and isinstance(node, (ast.Assign, ast.Expr, ast.AugAssign)):
+            src = ast.unparse(node)
+            for pat, stmts in self.contract.ghost_at.items():
+                if src.startswith(pat):
+                    self.ghost_at_hits.add(pat)
+                    for s2, oc in outs:
+                        if oc is None:
+                            self.exec_ghost(stmts, s2, node)
+        return outs
 
     def stmt_Expr(self, node, st):
         if isinstance(node.value, ast.Constant):
@@ -675,7 +707,7 @@ class Exec:
                 # growable python list modelled as (length, index -> element) in the store
                 cod = lhints[target.id]
                 buf = fresh_name('list_' + target.id)
-                items = list(v)
+                items = [list_to_seq(x, cod.inner) if isinstance(x, (list, tuple)) and hasattr(cod, 'inner') else x for x in v]
                 if items:
                     arr = ArrayVal((len(items),), lambda i, items=items: select_concrete(items, i, None), dtype_of_value(items[0]))
                 else:
@@ -683,6 +715,8 @@ class Exec:
                 arr.elem = cod
                 st.store[buf] = arr
                 v = PyList(buf)
+            if isinstance(v, PyList) and target.id in lhints and not self.spec_mode and getattr(st.store[v.buf], 'elem', None) is None:
+                st.store[v.buf].elem = lhints[target.id]
             st.env[target.id] = v
             return
         if isinstance(target, (ast.Tuple, ast.List)):
@@ -786,13 +820,23 @@ class Exec:
             for s in shape:
                 st.assume(s >= 0)
             buf = fresh_name('buf_' + name)
-            st.store[buf] = fresh_array(shape, old.dtype, name)
+            st.store[buf] = fresh_array(shape, 'xreal2' if old.dtype == 'xreal' else old.dtype, name)
             return NDRef(buf, [Dim(None, 0, 1, s) for s in shape])
         if isinstance(v, ArrayVal):
             shape = tuple(z3.Int(fresh_name('%s_shape%d' % (name, k))) for k in range(v.ndim))
             for s in shape:
                 st.assume(s >= 0)
-            return fresh_array(shape, v.dtype, name)
+            return fresh_array(shape, 'xreal2' if v.dtype == 'xreal' else v.dtype, name)
+        if isinstance(v, PyList) and getattr(st.store[v.buf], 'elem', None) is not None:
+            cod = st.store[v.buf].elem
+            ln = z3.Int(fresh_name('len_' + name))
+            st.assume(ln >= 0)
+            f = z3.Function(fresh_name(name), z3.IntSort(), cod.sort)
+            arr = ArrayVal((ln,), lambda i, f=f, cod=cod: cod.unpack(f(to_int(i))), 'obj')
+            arr.elem = cod
+            buf = fresh_name('list_' + name)
+            st.store[buf] = arr
+            return PyList(buf)
         if isinstance(v, tuple):
             return tuple(self.havoc_value(st, name, x) for x in v)
         if isinstance(v, ObjRef):
@@ -805,6 +849,19 @@ class Exec:
         regions = regions or {}
         for n in sorted(bufs):
             v = st.env.get(n)
+            if isinstance(v, PyList) and getattr(st.store[v.buf], 'elem', None) is not None and n in regions:
+                # list used as a fixed-length array (item assignment only): shape kept, declared region havocked
+                old = st.store[v.buf]
+                cod = old.elem
+                f = z3.Function(fresh_name(n), z3.IntSort(), cod.sort)
+                reg = regions[n]
+
+                def getl(i, reg=reg, f=f, cod=cod, old=old):
+                    return ite(to_z3(reg(i)), cod.unpack(f(to_int(i))), old.get(i))
+                arr = ArrayVal(old.shape, getl, 'obj')
+                arr.elem = cod
+                st.store[v.buf] = arr
+                continue
             if isinstance(v, PyList) and getattr(st.store[v.buf], 'elem', None) is not None:
                 old = st.store[v.buf]
                 cod = old.elem
@@ -817,7 +874,8 @@ class Exec:
                 continue
             if isinstance(v, (NDRef, PyList)):
                 old = st.store[v.buf]
-                fresh = fresh_array(old.shape, old.dtype if old.dtype != 'obj' else 'val', n)
+                # a havocked extended-real buffer may hold both infinities (whatever it held before the loop)
+                fresh = fresh_array(old.shape, {'obj': 'val', 'xreal': 'xreal2'}.get(old.dtype, old.dtype), n)
                 if n in regions:
                     reg = regions[n]
 
@@ -837,8 +895,14 @@ class Exec:
                 arr, cod = st.heap[a]
                 st.heap[a] = (z3.Const(fresh_name('H_' + a), arr.sort()), cod)
 
-    def exec_ghost(self, stmts, st):
+    def exec_ghost(self, stmts, st, node=None):
         for text in stmts:
+            if text.startswith('assert '):
+                # ghost assertion = cut lemma: proved here from the current path facts, available afterwards
+                body = text[7:]
+                self.emit(st, 'lemma', self.eval_spec(body, st), node, body)
+                st.assume(self.eval_spec(body, st, role='hyp'))
+                continue
             mod = ast.parse(text)
             self.spec_mode += 1
             try:
@@ -958,6 +1022,8 @@ class Exec:
             return states + done
         if spec is None:
             raise Unsupported('loop #%d at line %d has no invariant in the contract' % (k, node.lineno))
+        if spec.iter_name:
+            st.env[spec.iter_name] = ArrayVal((ln,), lambda i: item(i), dtype_of_value(item(z3.Int(fresh_name('probe')))))
         return self.inductive_loop(node, st, spec, k, ln, item, None)
 
     def stmt_While(self, node, st):
@@ -1023,13 +1089,20 @@ class Exec:
         regions = {}
         for bn, lam in spec.modifies.items():
             regions[bn] = self.region_fn(lam, body_st, cname, cnt)
-        self.havoc(body_st, names - {cname}, bufs, attrs, regions)
+        stay_none = {vn for vn, ty in spec.types.items() if ty == 'none'}
+        for vn in stay_none:
+            if st.env.get(vn, 0) is not None:
+                self.emit(st, 'inv-init#%d.none:%s' % (k, vn), z3.BoolVal(False), node, '%s is None on loop entry' % vn)
+        self.havoc(body_st, names - {cname} - stay_none, bufs, attrs, regions)
         body_st.env[cname] = cnt
         body_st.assume(cnt >= 0)
         head_content = {bn: (body_st.env[bn].buf, body_st.store[body_st.env[bn].buf]) for bn in spec.modifies
-                        if isinstance(body_st.env.get(bn), NDRef)}
-        for inv in spec.inv:
-            body_st.assume(self.eval_spec(inv, body_st, role='hyp'))
+                        if isinstance(body_st.env.get(bn), (NDRef, PyList))}
+        head_tags = {}
+        for nm, inv in zip(spec.inv_names, spec.inv):
+            h = to_z3(self.eval_spec(inv, body_st, role='hyp'))
+            head_tags[h.get_id()] = nm
+            body_st.assume(h)
         exit_st = body_st.copy()
         results = []
         if ln is not None:
@@ -1042,6 +1115,8 @@ class Exec:
         if spec.variant:
             var0 = self.eval_spec_value(spec.variant, body_st)
             self.emit(body_st, 'variant-nonneg#%d' % k, to_z3(s_le(0, var0)), node, spec.variant)
+        if not self.feasible(body_st):
+            self.vacuous.append('loop #%d (line %d): no iteration is possible under the invariants' % (k, node.lineno))
         if self.feasible(body_st):
             self.covers.append((node.lineno, 'loop-body'))
             self.exec_ghost(spec.ghost_pre, body_st)
@@ -1049,10 +1124,19 @@ class Exec:
                 if oc2 is None or oc2[0] == Outcome.CONTINUE:
                     self.exec_ghost(spec.ghost_post, s2)
                     s2.env[cname] = cnt + 1
+                    for vn in sorted(stay_none):
+                        if s2.env.get(vn, 0) is not None:
+                            self.emit(s2, 'inv-pres#%d.none:%s' % (k, vn), z3.BoolVal(False), node, '%s is still None after the iteration' % vn)
                     cut = []      # an invariant already shown preserved may be used for the following ones (sequential cut)
                     for i, inv in enumerate(spec.inv):
-                        self.emit(s2, 'inv-pres#%d.%d' % (k, i), self.eval_spec(inv, s2), node, inv, extra_hyps=cut)
-                        cut = cut + [to_z3(self.eval_spec(inv, s2, role='hyp'))]
+                        nm = spec.inv_names[i]
+                        allowed = spec.uses.get(nm)
+                        drop = None
+                        if allowed is not None:
+                            drop = {hid for hid, t in head_tags.items() if t not in allowed and t != nm}
+                        self.emit(s2, 'inv-pres#%d.%s' % (k, nm if nm != str(i) else i), self.eval_spec(inv, s2), node, inv,
+                                  extra_hyps=[c for t, c in cut if allowed is None or t in allowed], drop_hyps=drop)
+                        cut = cut + [(nm, to_z3(self.eval_spec(inv, s2, role='hyp')))]
                     for bn, (bufid, head) in head_content.items():
                         # frame: cells outside the (next) region keep the content they had at the loop head,
                         # and the region only grows
@@ -1385,6 +1469,9 @@ class Exec:
         return self.getitem(base, idx, st, node)
 
     def getitem(self, base, idx, st, node):
+        if isinstance(base, OptVal):
+            self.emit(st, 'not-none', z3.Not(base.is_none), node, 'subscript of a value that may be None')
+            return self.getitem(base.some, idx, st, node)
         if isinstance(base, (list, tuple, str)):
             if isinstance(idx, SliceIx):
                 if all(x is None or is_conc_num(x) for x in (idx.start, idx.stop, idx.step)):
@@ -1579,6 +1666,7 @@ class Exec:
                     return old.get(i)
                 return merge_obj(c, v, old.get(i))
             st.store[base.buf] = ArrayVal(old.shape, get, dt)
+            st.store[base.buf].elem = getattr(old, 'elem', None)
             return
         if isinstance(base, list):
             if is_conc_num(idx):
@@ -1671,6 +1759,12 @@ class Exec:
             if ('method:' + name) in self.contract.ghosts:
                 m = self.contract.ghosts['method:' + name]
                 return lambda ex, st2, *a, **k: m(ex, st2, obj, *a, **k)
+            if obj.cls and name not in self.contract.fields:
+                mk = [k_ for k_ in self.registry if k_[1] == '%s.%s' % (obj.cls, name)]
+                if mk:
+                    # bound method of a class whose method has a contract in the registry: modular call
+                    f = Opaque('func:' + mk[0][1], mk[0])
+                    return lambda ex, st2, *a, **k: ex.call_user(f, [obj] + list(a), k, st2, node)
             if self.contract.fields.get(name) == 'py':
                 k = (str(obj.r), name)
                 if k not in st.pyfields:
@@ -1783,7 +1877,7 @@ class Exec:
                     st.pc = s.pc
             return out
         if g.ifs:
-            raise Unsupported('filter in comprehension over symbolic sequence (line %d)' % node.lineno)
+            return self.filter_comprehension(node, g, ln, item, st)
 
         if not self.spec_mode:
             # obligations of the element expression, once, for an arbitrary index of the sequence
@@ -1807,6 +1901,88 @@ class Exec:
         return ArrayVal((ln,), get, dtype_of_value(probe))
 
     expr_GeneratorExp = expr_ListComp
+
+    def expr_DictComp(self, node, st):
+        """{key: value for x in seq} over a sequence of symbolic length: presence predicate HAS and index function IDX —
+        a key is present iff some element produced it; its value is the one produced at the LAST such element"""
+        if len(node.generators) != 1 or node.generators[0].ifs:
+            raise Unsupported('dict comprehension with filter / nested generators')
+        g = node.generators[0]
+        itv = self.eval(g.iter, st)
+        ln, item = self.iter_descr(itv, st, node)
+        snap = st.copy()
+
+        def at(i, what):
+            s = snap.copy()
+            self.assign(g.target, item(i), s)
+            self.spec_mode += 1
+            try:
+                return self.eval(node.key if what == 'key' else node.value, s)
+            finally:
+                self.spec_mode -= 1
+        pk = at(z3.Int(fresh_name('probe')), 'key')
+        if kind(pk) not in ('int', 'real', 'bool'):
+            raise Unsupported('dict comprehension with non-numeric keys')
+        n = to_int(ln)
+        HAS = z3.Function(fresh_name('dict_has'), z3.RealSort(), z3.BoolSort())
+        IDX = z3.Function(fresh_name('dict_idx'), z3.RealSort(), z3.IntSort())
+        i, k = z3.Int('i'), z3.Real('k')
+        keyi = to_real(at(i, 'key'))
+        st.assume(z3.ForAll([i], z3.Implies(z3.And(i >= 0, i < n), z3.And(HAS(keyi), IDX(keyi) >= i)),
+                            patterns=lib.infer_patterns(keyi, [i]) or [keyi]))
+        st.assume(z3.ForAll([k], z3.Implies(HAS(k), z3.And(IDX(k) >= 0, IDX(k) < n, to_real(at(IDX(k), 'key')) == k)),
+                            patterns=[HAS(k)]))
+        st.assume(z3.ForAll([k], z3.Implies(HAS(k), z3.And(IDX(k) >= 0, IDX(k) < n, to_real(at(IDX(k), 'key')) == k)),
+                            patterns=[IDX(k)]))
+        self.assumed.append('model: a dict comprehension holds exactly the produced keys, each with the value produced last')
+        return lib.DictVal(lambda x: HAS(to_real(x)), lambda x: at(IDX(to_real(x)), 'value'))
+
+    def filter_comprehension(self, node, g, ln, item, st):
+        """[elt for x in seq if cond] over a sequence of symbolic length: the result has a symbolic length K; the j-th
+        result element is elt at source index SRC(j); SRC is strictly increasing and enumerates exactly the source
+        indices at which cond holds (POS(i) is the result position of source index i)."""
+        snap = st.copy()
+        if not self.spec_mode:
+            s0 = st.copy()
+            k0 = z3.Int(fresh_name('elt'))
+            s0.assume(z3.And(k0 >= 0, k0 < to_int(ln)))
+            self.assign(g.target, item(k0), s0)
+            for cnd in g.ifs:
+                c = truthy(self.eval(cnd, s0))
+                s0.assume(to_z3(c))
+            self.eval(node.elt, s0)
+
+        def at(i, what):
+            s = snap.copy()
+            self.assign(g.target, item(i), s)
+            self.spec_mode += 1
+            try:
+                if what == 'cond':
+                    return band(*[truthy(self.eval(c, s)) for c in g.ifs])
+                return self.eval(node.elt, s)
+            finally:
+                self.spec_mode -= 1
+        K = z3.Int(fresh_name('n_kept'))
+        SRC = z3.Function(fresh_name('kept_src'), z3.IntSort(), z3.IntSort())
+        POS = z3.Function(fresh_name('kept_pos'), z3.IntSort(), z3.IntSort())
+        n = to_int(ln)
+        j, j2, i = z3.Int('j'), z3.Int('j2'), z3.Int('i')
+        st.assume(z3.And(K >= 0, K <= n))
+        st.assume(z3.ForAll([j], z3.Implies(z3.And(j >= 0, j < K), z3.And(SRC(j) >= 0, SRC(j) < n, to_z3(at(SRC(j), 'cond')),
+                                                                          POS(SRC(j)) == j)), patterns=[SRC(j)]))
+        st.assume(z3.ForAll([j, j2], z3.Implies(z3.And(j >= 0, j < j2, j2 < K), SRC(j) < SRC(j2)),
+                            patterns=[z3.MultiPattern(SRC(j), SRC(j2))]))
+        ci = to_z3(at(i, 'cond'))
+        pats = [POS(i)] + [p for p in lib.infer_patterns(ci, [i])]
+        try:
+            st.assume(z3.ForAll([i], z3.Implies(z3.And(i >= 0, i < n, ci), z3.And(POS(i) >= 0, POS(i) < K, SRC(POS(i)) == i)),
+                                patterns=pats))
+        except z3.Z3Exception:
+            st.assume(z3.ForAll([i], z3.Implies(z3.And(i >= 0, i < n, ci), z3.And(POS(i) >= 0, POS(i) < K, SRC(POS(i)) == i)),
+                                patterns=[POS(i)]))
+        self.assumed.append('model: a filtered comprehension keeps exactly the elements satisfying the filter, in source order')
+        probe = at(SRC(z3.Int(fresh_name('probe'))), 'elt')
+        return ArrayVal((K,), lambda q: at(SRC(to_int(q)), 'elt'), dtype_of_value(probe))
 
     # ---- calls --------------------------------------------------------------------------------
 
@@ -2050,16 +2226,30 @@ class Exec:
         for r in con.requires:
             c = self.eval_spec(r, st, extra=env)
             self.emit(st, 'pre-call:%s' % qual.split('.')[-1], to_z3(c), node, r)
+            st.assume(self.eval_spec(r, st, extra=env, role='hyp'))     # proved above (or reported): usable from here on
         for exc, cond in con.ensures_exc.items():
             c = self.eval_spec(cond, st, extra=env)
             self.emit(st, 'pre-call:%s-does-not-raise-%s' % (qual.split('.')[-1], exc), to_z3(bnot(c)), node, 'not (%s)' % cond)
         if con.result is None:
             raise Unsupported('contract of %s lacks a result constructor for call sites' % qual)
+        pre = st.copy()
+        for m in con.modifies:
+            v = env.get(m)
+            if not isinstance(v, NDRef):
+                raise Unsupported('callee %s modifies %s which is not an array at the call site' % (qual, m))
+            oldc = st.store[v.buf]
+            # the callee may write anywhere into the buffer behind the argument
+            st.store[v.buf] = fresh_array(oldc.shape, 'xreal2' if oldc.dtype == 'xreal' else oldc.dtype, m)
         res = con.result(self, st, env)
         env2 = dict(env)
         env2['result'] = res
-        for e in con.public_ensures:
-            st.assume(self.eval_spec(e, st, extra=env2, role='hyp'))
+        saved_entry = self.entry
+        self.entry = pre            # old(...) in the callee's postconditions refers to the state before the call
+        try:
+            for e in con.public_ensures:
+                st.assume(self.eval_spec(e, st, extra=env2, role='hyp'))
+        finally:
+            self.entry = saved_entry
         self.assumed.append('callee contract: %s' % qual)
         return res
 
